@@ -797,6 +797,12 @@ func (pm *ProtocolManager) handleTxsMsg(msg *p2p.Msg) error {
 			isExist := pm.txGuard.ExistTx(currentBlock.Hash(), tx)
 			if !isExist {
 				if err := pm.txPool.AddTx(tx); err == nil { // 加入交易池
+					// A block which packages tx may have become the current block between the lookup above and AddTx. Its
+					// DelTxs found nothing to delete then, so look again now that tx is in the pool
+					if pm.txGuard.ExistTx(pm.chain.CurrentBlock().Hash(), tx) {
+						pm.txPool.DelTxs(types.Transactions{tx})
+						return
+					}
 					// 广播交易
 					subscribe.Send(subscribe.NewTx, tx)
 				}
